@@ -145,6 +145,16 @@ func App(name string, res *Sort, args ...*Term) *Term {
 	return &Term{Op: "app", Name: name, Sort: res, Args: args}
 }
 
+// SIdx is the position off+i of element i of a slice inside its backing array. It is kept as an
+// application of the function sidx (axiomatised as off+i) so that quantified facts about s[i]
+// have a stable E-matching trigger; arithmetic normalisation otherwise destroys it.
+func SIdx(off, i *Term) *Term {
+	if off.IsInt() && (off.Int.Sign() == 0 || i.IsInt()) {
+		return Add(off, i)
+	}
+	return App("sidx", IntS, off, i)
+}
+
 func mk(op string, s *Sort, args ...*Term) *Term { return &Term{Op: op, Sort: s, Args: args} }
 
 func (t *Term) IsTrue() bool  { return t.Op == "bool" && t.Name == "true" }
